@@ -11,7 +11,7 @@ RULE = ("cbldm on n = 1..14 (thorough 16) non-negative integers (zeros, repeats,
         "checks: two bins holding every name exactly once, |#A-#B| <= d, |sum A - sum B| equals the optimum under d; non-trivial = constrained optimum differs from the unconstrained one, "
         "or n >= 6 with d = 1; distinct on (d, sorted values)")
 ASSUMPTIONS = ["no time limit", "O4 enumerates achievable subset sums per cardinality"]
-FLOORS = {"quick": {"distinct_nontrivial": 3000}, "thorough": {"distinct_nontrivial": 30000}}
+FLOORS = {"quick": {"distinct_nontrivial": 3000}, "thorough": {"distinct_nontrivial": 15000}}
 
 
 def plan(tier, seed):
